@@ -132,9 +132,9 @@ std::string ks(char const* k, char const* v) { return std::string(",\"") + k + "
 std::string ki(char const* k, long v) { return std::string(",\"") + k + "\":" + std::to_string(v); }
 
 // event formatting lives outside the templates (keeps the per-instantiation code small)
-void emit_unary(char const* op, char const* on, int i, int j, char const* rf, char const* rt, i128 c, std::string const& ret)
+void emit_unary(char const* op, char const* on, int i, int j, char const* rf, char const* rt, i128 c, int ce, std::string const& ret)
 {
-    line(head(op, on) + ki("i", i) + ki("j", j) + ks("rf", rf) + ks("rt", rt) + kv("c", wide(c)) + kv("ret", ret) + "}");
+    line(head(op, on) + ki("i", i) + ki("j", j) + ks("rf", rf) + ks("rt", rt) + kv("c", wide(c)) + ki("ce", ce) + kv("ret", ret) + "}");
 }
 void emit_binary(char const* on, char const* sp, int i, int j, char const* r1, char const* r2, i128 c1, i128 c2, std::string const& rest)
 {
@@ -146,16 +146,31 @@ void emit_member(char const* on, char const* sp, int i, char const* r, i128 c, l
 }
 
 // floor / ceil / round (need common_type<To, From>)
+// the source count is c / 2^ce; ce > 0 (a fractional count) is only ever selected for a floating-point source
+template <typename T>
+T count_of(i128 c, int ce)
+{
+    if constexpr (std::is_floating_point_v<T>) {
+        return static_cast<T>(c) / static_cast<T>(1 << ce);
+    } else {
+        if (ce != 0) {
+            std::fprintf(stderr, "fractional count selected for an integer representation\n");
+            std::exit(2);
+        }
+        return static_cast<T>(c);
+    }
+}
+
 template <int I, int J, typename RF, typename RT>
-void rounding(std::string const& op, i128 c)
+void rounding(std::string const& op, i128 c, int ce)
 {
     using From = ch::duration<typename RF::type, P<I>>;
     using To   = ch::duration<typename RT::type, P<J>>;
-    auto const d  = From{static_cast<typename RF::type>(c)};
+    auto const d  = From{count_of<typename RF::type>(c, ce)};
     auto const tp = ch::time_point<Clock, From>{d};
     constexpr bool with_tp = std::is_same_v<RF, I64> and std::is_same_v<RT, I64>;
     auto ev = [&](char const* on, std::string const& ret) {
-        emit_unary(op.c_str(), on, I, J, RF::name, RT::name, c, ret);
+        emit_unary(op.c_str(), on, I, J, RF::name, RT::name, c, ce, ret);
     };
     if (op == "floor") {
         ev("dur", val(ch::floor<To>(d).count()));
@@ -173,16 +188,16 @@ void rounding(std::string const& op, i128 c)
 
 // ---- one duration -> another period / representation ------------------------------------------------
 template <int I, int J, typename RF, typename RT>
-void unary(std::string const& op, i128 c)
+void unary(std::string const& op, i128 c, int ce)
 {
     using From = ch::duration<typename RF::type, P<I>>;
     using To   = ch::duration<typename RT::type, P<J>>;
-    auto const d  = From{static_cast<typename RF::type>(c)};
+    auto const d  = From{count_of<typename RF::type>(c, ce)};
     auto const tp = ch::time_point<Clock, From>{d};
     // the time_point spellings forward to the duration ones: driven for the int64 -> int64 combination only
     constexpr bool with_tp = std::is_same_v<RF, I64> and std::is_same_v<RT, I64>;
     auto ev = [&](char const* on, std::string const& ret) {
-        emit_unary(op.c_str(), on, I, J, RF::name, RT::name, c, ret);
+        emit_unary(op.c_str(), on, I, J, RF::name, RT::name, c, ce, ret);
     };
     if (op == "cast") {
         ev("dur", val(ch::duration_cast<To>(d).count()));
@@ -193,7 +208,7 @@ void unary(std::string const& op, i128 c)
 #endif
     } else if (op == "floor" or op == "ceil" or op == "round") {
         if constexpr (vp_pair_ok<I, J>) {
-            rounding<I, J, RF, RT>(op, c);
+            rounding<I, J, RF, RT>(op, c, ce);
         } else {
             unsupported("floor/ceil/round and every two-duration operator between periods " + std::to_string(I) + " and " + std::to_string(J)
                         + " (their common_type does not instantiate: etl::lcm overflows)");
@@ -431,14 +446,14 @@ void statics(std::integer_sequence<int, Js...>)
 
 // ---- dispatch: runtime (j, reps) -> compile-time --------------------------------------------------------
 template <int I, int J>
-void unary_j(std::string const& op, std::string const& rf, std::string const& rt, i128 c)
+void unary_j(std::string const& op, std::string const& rf, std::string const& rt, i128 c, int ce)
 {
-    if (rf == "i64" and rt == "i64") { return unary<I, J, I64, I64>(op, c); }
-    if (rf == "f64" and rt == "f64") { return unary<I, J, F64, F64>(op, c); }
-    if (rf == "i64" and rt == "f64") { return unary<I, J, I64, F64>(op, c); }
-    if (rf == "f64" and rt == "i64") { return unary<I, J, F64, I64>(op, c); }
-    if (rf == "i32" and rt == "i32") { return unary<I, J, I32, I32>(op, c); }
-    if (rf == "i32" and rt == "i64") { return unary<I, J, I32, I64>(op, c); }
+    if (rf == "i64" and rt == "i64") { return unary<I, J, I64, I64>(op, c, ce); }
+    if (rf == "f64" and rt == "f64") { return unary<I, J, F64, F64>(op, c, ce); }
+    if (rf == "i64" and rt == "f64") { return unary<I, J, I64, F64>(op, c, ce); }
+    if (rf == "f64" and rt == "i64") { return unary<I, J, F64, I64>(op, c, ce); }
+    if (rf == "i32" and rt == "i32") { return unary<I, J, I32, I32>(op, c, ce); }
+    if (rf == "i32" and rt == "i64") { return unary<I, J, I32, I64>(op, c, ce); }
     std::fprintf(stderr, "unknown rep combination %s %s\n", rf.c_str(), rt.c_str());
     std::exit(2);
 }
@@ -491,11 +506,12 @@ void dispatch(json const& in, std::integer_sequence<int, Js...> seq)
     }
     i128 c = unwide(in["c"]);
     if (fam == "u") {
-        int j = in["j"];
+        int j  = in["j"];
+        int ce = in["ce"];
         for (auto const& n : in["ok"]) {
             auto const& t  = row_of(g_utable, n);
             std::string op = t[0], rf = t[1], rt = t[2];
-            ((j == Js + 1 ? unary_j<I, Js + 1>(op, rf, rt, c) : void()), ...);
+            ((j == Js + 1 ? unary_j<I, Js + 1>(op, rf, rt, c, ce) : void()), ...);
         }
     } else if (fam == "b") {
         int j   = in["j"];
